@@ -391,6 +391,21 @@ class Verdict:
         # (CB_VERIF_SRC, used for seeded mutants) do not overwrite it
         evdir = os.path.join(ROOT, "evidence") if os.path.realpath(SRC) == "/repo" else os.path.join(scratch(), "evidence")
         os.makedirs(evdir, exist_ok=True)
+        # the file describes THIS run; the most recent run of the other tier is kept as a clearly labelled summary
+        try:
+            old = json.load(open(os.path.join(evdir, "%s.json" % self.pid)))
+            if old.get("tier") != self.tier:
+                oc = old.get("coverage", {})
+                cov["previous_run_of_other_tier"] = {
+                    "tier": old.get("tier"), "seed": old.get("seed"), "wall_s": old.get("wall_s"),
+                    "evaluations": oc.get("evaluations"), "distinct_nontrivial": oc.get("distinct_nontrivial"),
+                    "obligations": oc.get("obligations"), "discharged": oc.get("discharged"),
+                    "violations": old.get("violations"), "distribution": oc.get("distribution"),
+                    "note": "summary of an earlier run, copied from the evidence file that run wrote; not measured by this run"}
+            elif "previous_run_of_other_tier" in old.get("coverage", {}):
+                cov["previous_run_of_other_tier"] = old["coverage"]["previous_run_of_other_tier"]
+        except Exception:
+            pass
         json.dump(ev, open(os.path.join(evdir, "%s.json" % self.pid), "w"), indent=1)
         log("%s %s: %d obligations (%d ok), %d evaluations, %d violations, %d known findings, %.1fs" % (
             self.pid, self.tier, len(self.obligations), cov["discharged"], cov["evaluations"],
@@ -471,6 +486,9 @@ def exit_class(rc):
     return "error"
 
 
+SANITIZER_LINE_RE = re.compile(r"^.*(?:ERROR: AddressSanitizer|runtime error:|ERROR: LeakSanitizer|UndefinedBehaviorSanitizer).*$", re.M)
+
+
 def run_programs(exe, programs, timeout=10, jobs=JOBS, args=(), cwd_links=None, env=None, collect=None):
     """run each program text (str) or (text, extra_args); returns list of (stdout, exit_class, stderr_tail).
     Each worker has its own directory inside the scratch dir."""
@@ -523,8 +541,13 @@ def run_programs(exe, programs, timeout=10, jobs=JOBS, args=(), cwd_links=None, 
             try:
                 r = subprocess.run([exe, "t.cb"] + extra, cwd=d, stdout=subprocess.PIPE, stderr=subprocess.PIPE,
                                    timeout=timeout, env=e)
-                res = (r.stdout.decode("utf-8", "replace"), exit_class(r.returncode),
-                       r.stderr.decode("utf-8", "replace")[-400:])
+                err_full = r.stderr.decode("utf-8", "replace")
+                err_tail = err_full[-400:]
+                # a sanitizer report is long (shadow-byte dump): its headline must survive the truncation
+                sm = SANITIZER_LINE_RE.search(err_full)
+                if sm and sm.group(0) not in err_tail:
+                    err_tail = sm.group(0)[:300] + "\n[...]\n" + err_tail
+                res = (r.stdout.decode("utf-8", "replace"), exit_class(r.returncode), err_tail)
                 if collect:
                     cp = os.path.join(d, collect)
                     side = open(cp, errors="replace").read() if os.path.exists(cp) else ""
